@@ -37,13 +37,13 @@ func (y *Yaml) IsFound() bool {
 //	     y.Get("xx").Get("yy").Int()
 //			y.Get("notPresent").IsFound()
 func (y *Yaml) Get(key any) *Yaml {
-	found := false
-	for _, n := range y.data.Content {
-		if found {
-			return &Yaml{n}
-		}
-		if n.Kind == yaml.ScalarNode && n.Value == key {
-			found = true
+	if y.data != nil && y.data.Kind == yaml.MappingNode {
+		// Content of a mapping node is key, value, key, value, ...: only look at the keys
+		for i := 0; i+1 < len(y.data.Content); i += 2 {
+			k := y.data.Content[i]
+			if k.Kind == yaml.ScalarNode && k.Value == key {
+				return &Yaml{y.data.Content[i+1]}
+			}
 		}
 	}
 	return &Yaml{nil} // always returns yaml node, if key not present yaml node with nil value is returned
